@@ -371,3 +371,546 @@ Section DensifyAny.
     assert (E : Qle_bool r 0 = true) by (apply Qle_bool_true; exact H). rewrite E. reflexivity.
   Qed.
 End DensifyAny.
+
+(* ------------------------------------------------------------------ consequences of [refines] *)
+Lemma increasing_bounds lo ts hi : increasing lo ts hi ->
+  lo < hi /\ forall t, In t ts -> lo < t /\ t < hi.
+Proof.
+  revert lo. induction ts as [|t0 ts IH]; simpl; intros lo H.
+  - split; auto. intros t [].
+  - destruct H as [H1 H2]. destruct (IH _ H2) as [H3 H4]. split; [lra|].
+    intros t [->|Ht]; [split; lra|]. destruct (H4 _ Ht). split; lra.
+Qed.
+
+Lemma refines_refl l : refines l l.
+Proof.
+  induction l as [|p l IH]; [constructor|].
+  destruct l as [|q l]; [constructor|].
+  apply (refines_seg p q l [] (q :: l)); simpl; [lra | exact IH].
+Qed.
+
+Lemma refines_head p rest out : refines (p :: rest) out -> exists out', out = p :: out'.
+Proof. intros H; inversion H; subst; eauto. Qed.
+
+Lemma subseq_skip_app {A} (m l1 l2 : list A) : subseq l1 l2 -> subseq l1 (m ++ l2).
+Proof. induction m; simpl; auto. intros; apply subseq_skip; auto. Qed.
+
+Lemma refines_subseq cs out : refines cs out -> subseq cs out.
+Proof.
+  induction 1; try (repeat constructor).
+  apply subseq_skip_app. assumption.
+Qed.
+
+Lemma refines_hd cs out : refines cs out -> hd_error out = hd_error cs.
+Proof. induction 1; reflexivity. Qed.
+
+Lemma last_app_cons {A} (m : list A) x l d : last (m ++ x :: l) d = last (x :: l) d.
+Proof.
+  induction m as [|y m IH]; [reflexivity|].
+  change ((y :: m) ++ x :: l) with (y :: (m ++ x :: l)).
+  destruct (m ++ x :: l) eqn:E.
+  - destruct m; discriminate.
+  - rewrite <- E at 1. rewrite <- IH. rewrite E. reflexivity.
+Qed.
+
+Lemma refines_last cs out d : refines cs out -> last out d = last cs d.
+Proof.
+  induction 1; try reflexivity.
+  destruct (refines_head _ _ _ H0) as [out' ->].
+  change (p1 :: map (lerp p1 p2) ts ++ p2 :: out') with ((p1 :: map (lerp p1 p2) ts) ++ p2 :: out').
+  rewrite last_app_cons. rewrite IHrefines. reflexivity.
+Qed.
+
+Lemma refines_length cs out : refines cs out -> (length cs <= length out)%nat.
+Proof.
+  induction 1; simpl; auto. rewrite app_length. simpl in IHrefines. lia.
+Qed.
+
+(** every output point is an original vertex or lies strictly inside an original edge *)
+Lemma refines_points cs out : refines cs out ->
+  forall x, In x out ->
+    In x cs \/ exists p1 p2 t, adjacent p1 p2 cs /\ 0 < t /\ t < 1 /\ x = lerp p1 p2 t.
+Proof.
+  induction 1; intros x Hx.
+  - destruct Hx.
+  - left; exact Hx.
+  - destruct Hx as [<-|Hx]; [left; left; reflexivity|].
+    apply in_app_or in Hx. destruct Hx as [Hx|Hx].
+    + right. apply in_map_iff in Hx. destruct Hx as (t & <- & Ht).
+      destruct (increasing_bounds _ _ _ H) as [_ Hb]. destruct (Hb _ Ht).
+      exists p1, p2, t. repeat split; auto. apply adjacent_head.
+    + destruct (IHrefines _ Hx) as [Hi|(a & b & t & Hadj & H1 & H2 & ->)].
+      * left; right; exact Hi.
+      * right. exists a, b, t. repeat split; auto. apply adjacent_tail; exact Hadj.
+Qed.
+
+(* --- shoelace --- *)
+Definition cross (p q : pt) : Q := fst p * snd q - fst q * snd p.
+
+Lemma shoelace2_cons2 p q l : shoelace2 (p :: q :: l) = cross p q + shoelace2 (q :: l).
+Proof. reflexivity. Qed.
+
+Lemma cross_lerp p1 p2 a s x :
+  pt_eq a (lerp p1 p2 s) -> cross a (lerp p1 p2 x) == (x - s) * cross p1 p2.
+Proof. intros [Hx Hy]. unfold cross. rewrite Hx, Hy. unfold lerp; simpl. ring. Qed.
+
+Lemma cross_lerp_end p1 p2 a s :
+  pt_eq a (lerp p1 p2 s) -> cross a p2 == (1 - s) * cross p1 p2.
+Proof. intros [Hx Hy]. unfold cross. rewrite Hx, Hy. unfold lerp; simpl. ring. Qed.
+
+(** inserting collinear points between p1 and p2 does not change the shoelace sum *)
+Lemma shoelace_insert p1 p2 tail : forall ts a s,
+  pt_eq a (lerp p1 p2 s) ->
+  shoelace2 (a :: map (lerp p1 p2) ts ++ p2 :: tail) == (1 - s) * cross p1 p2 + shoelace2 (p2 :: tail).
+Proof.
+  induction ts as [|t ts IH]; intros a s Ha.
+  - simpl app. rewrite shoelace2_cons2. rewrite (cross_lerp_end _ _ _ _ Ha). reflexivity.
+  - change (a :: map (lerp p1 p2) (t :: ts) ++ p2 :: tail)
+      with (a :: lerp p1 p2 t :: (map (lerp p1 p2) ts ++ p2 :: tail)).
+    rewrite shoelace2_cons2. rewrite (cross_lerp _ _ _ _ t Ha).
+    rewrite (IH (lerp p1 p2 t) t (pt_eq_refl _)). ring.
+Qed.
+
+Lemma refines_shoelace cs out : refines cs out -> shoelace2 out == shoelace2 cs.
+Proof.
+  induction 1; try reflexivity.
+  destruct (refines_head _ _ _ H0) as [out' ->].
+  rewrite (shoelace_insert p1 p2 out' ts p1 0 (lerp_0 p1 p2)).
+  rewrite shoelace2_cons2. rewrite IHrefines. unfold cross. ring.
+Qed.
+
+(* --- length --- *)
+Lemma seg_len_unique p q a b : seg_len p q a -> seg_len p q b -> a == b.
+Proof.
+  intros [Ha Ha2] [Hb Hb2]. apply root_unique; auto. rewrite Ha2, Hb2. reflexivity.
+Qed.
+
+Lemma path_len_unique l a b : path_len l a -> path_len l b -> a == b.
+Proof.
+  intros Ha. revert b.
+  induction Ha as [| p | p q rest l0 m Hs Hp IH]; intros b Hb; inversion Hb; subst; try reflexivity.
+  match goal with
+  | [ H1 : seg_len p q ?x, H2 : path_len (q :: rest) ?y |- _ ] =>
+      rewrite (seg_len_unique _ _ _ _ Hs H1), (IH _ H2)
+  end.
+  reflexivity.
+Qed.
+
+Lemma seg_len_piece p1 p2 l a s t :
+  seg_len p1 p2 l -> pt_eq a (lerp p1 p2 s) -> s <= t ->
+  seg_len a (lerp p1 p2 t) ((t - s) * l).
+Proof.
+  intros [Hl Hl2] Ha Hst. split.
+  - apply Qmult_le_0_compat; lra.
+  - rewrite (sqdist_lerp_lerp _ _ _ _ _ Ha). rewrite <- Hl2. ring.
+Qed.
+
+Lemma seg_len_piece_end p1 p2 l a s :
+  seg_len p1 p2 l -> pt_eq a (lerp p1 p2 s) -> s <= 1 ->
+  seg_len a p2 ((1 - s) * l).
+Proof.
+  intros [Hl Hl2] Ha Hs. split.
+  - apply Qmult_le_0_compat; lra.
+  - rewrite (sqdist_lerp_end _ _ _ _ Ha). rewrite <- Hl2. ring.
+Qed.
+
+Lemma path_len_insert p1 p2 l tail m :
+  seg_len p1 p2 l -> path_len (p2 :: tail) m ->
+  forall ts a s, pt_eq a (lerp p1 p2 s) -> increasing s ts 1 ->
+    exists X, path_len (a :: map (lerp p1 p2) ts ++ p2 :: tail) X /\ X == (1 - s) * l + m.
+Proof.
+  intros Hl Hm. induction ts as [|t ts IH]; intros a s Ha Hinc; simpl in Hinc.
+  - exists ((1 - s) * l + m). split; [|reflexivity]. simpl app.
+    apply pl_cons; [apply (seg_len_piece_end p1 p2 l a s Hl Ha); lra | exact Hm].
+  - destruct Hinc as [Hst Hinc].
+    destruct (IH (lerp p1 p2 t) t (pt_eq_refl _) Hinc) as (X & HX & EX).
+    exists ((t - s) * l + X). split.
+    + change (a :: map (lerp p1 p2) (t :: ts) ++ p2 :: tail)
+        with (a :: lerp p1 p2 t :: (map (lerp p1 p2) ts ++ p2 :: tail)).
+      apply pl_cons; [apply (seg_len_piece p1 p2 l a s t Hl Ha); lra | exact HX].
+    + rewrite EX. ring.
+Qed.
+
+Lemma refines_path_len cs out : refines cs out ->
+  forall Lc, path_len cs Lc -> exists Lo, path_len out Lo /\ Lo == Lc.
+Proof.
+  induction 1; intros Lc Hc.
+  - exists Lc; split; [exact Hc | reflexivity].
+  - exists Lc; split; [exact Hc | reflexivity].
+  - inversion Hc as [| | ? ? ? l m Hseg Hrest]; subst.
+    destruct (IHrefines _ Hrest) as (mo & Hmo & Emo).
+    destruct (refines_head _ _ _ H0) as [out' ->].
+    destruct (path_len_insert p1 p2 l out' mo Hseg Hmo ts p1 0 (lerp_0 p1 p2) H) as (X & HX & EX).
+    exists X. split; [exact HX|]. rewrite EX, Emo. ring.
+Qed.
+
+Lemma refines_paths_len ps ps' : Forall2 refines ps ps' ->
+  forall L, paths_len ps L -> exists L', paths_len ps' L' /\ L' == L.
+Proof.
+  induction 1; intros L HL; inversion HL as [| ? ? a b Hpa Hpb]; subst.
+  - exists 0; split; [constructor | reflexivity].
+  - destruct (refines_path_len _ _ H _ Hpa) as (a' & Ha & Ea).
+    destruct (IHForall2 _ Hpb) as (b' & Hb & Eb).
+    exists (a' + b'). split; [constructor; auto|]. rewrite Ea, Eb. reflexivity.
+Qed.
+
+Lemma path_length_cons2 sq p q l :
+  path_length sq (p :: q :: l) =
+  match sq (sqdist p q), path_length sq (q :: l) with
+  | Some a, Some b => Some (a + b)
+  | _, _ => None
+  end.
+Proof. reflexivity. Qed.
+
+(** the computable lengths of the model are lengths in the sense of [path_len] *)
+Lemma path_length_sound sq : sqrt_spec sq -> forall l L, path_length sq l = Some L -> path_len l L.
+Proof.
+  intros Hsq. induction l as [|p l IH]; intros L H.
+  - inversion H; constructor.
+  - destruct l as [|q l].
+    + inversion H; constructor.
+    + rewrite path_length_cons2 in H.
+      destruct (sq (sqdist p q)) as [a|] eqn:Ea; [|discriminate].
+      destruct (path_length sq (q :: l)) as [b|] eqn:Eb; [|discriminate].
+      inversion H; subst L. apply pl_cons; [apply Hsq; exact Ea | apply IH; reflexivity].
+Qed.
+
+(* ------------------------------------------------------------------ geometries *)
+Section GeomInd.
+  Variable P : geom -> Prop.
+  Hypothesis HPt : forall p, P (Point p).
+  Hypothesis HMP : forall ps, P (MultiPoint ps).
+  Hypothesis HLn : forall cs, P (Line cs).
+  Hypothesis HRg : forall cs, P (Ring cs).
+  Hypothesis HPoly : forall e hs, P (Polygon e hs).
+  Hypothesis HMulti : forall k ps, Forall P ps -> P (Multi k ps).
+
+  Fixpoint geom_ind' (g : geom) : P g :=
+    match g with
+    | Point p => HPt p
+    | MultiPoint ps => HMP ps
+    | Line cs => HLn cs
+    | Ring cs => HRg cs
+    | Polygon e hs => HPoly e hs
+    | Multi k ps =>
+        HMulti k ps ((fix go (l : list geom) : Forall P l :=
+                        match l with
+                        | [] => Forall_nil P
+                        | x :: l' => Forall_cons x (geom_ind' x) (go l')
+                        end) ps)
+    end.
+End GeomInd.
+
+Lemma mapM_Forall2 {A B} (f : A -> res B) : forall l l',
+  mapM f l = Ok l' -> Forall2 (fun a b => f a = Ok b) l l'.
+Proof.
+  induction l as [|x l IH]; intros l' H; simpl in H.
+  - inversion H; constructor.
+  - apply bind_ok in H. destruct H as (a & Ha & H).
+    apply bind_ok in H. destruct H as (b & Hb & H). inversion H; subst.
+    constructor; auto.
+Qed.
+
+Lemma mapM_err {A B} (f : A -> res B) : forall l e,
+  mapM f l = Err e -> exists x, In x l /\ f x = Err e.
+Proof.
+  induction l as [|x l IH]; intros e H; simpl in H; [discriminate|].
+  destruct (f x) as [a|e1] eqn:Ex; simpl in H.
+  - destruct (mapM f l) as [b|e2] eqn:El; simpl in H; [discriminate|].
+    inversion H; subst. destruct (IH _ eq_refl) as (y & Hy & Hf). exists y. split; [right|]; auto.
+  - inversion H; subst. exists x. split; [left|]; auto.
+Qed.
+
+Lemma max_gap_single r p : max_gap r [p].
+Proof. intros i a b Ha Hb. destruct i; simpl in Hb; [discriminate | destruct i; discriminate]. Qed.
+
+Lemma Forall2_refines_singles ps :
+  Forall2 refines (map (fun p : pt => [p]) ps) (map (fun p : pt => [p]) ps).
+Proof. induction ps; simpl; constructor; auto. constructor. Qed.
+
+Lemma Forall_max_gap_singles r ps : Forall (max_gap r) (map (fun p : pt => [p]) ps).
+Proof. induction ps; simpl; constructor; auto. apply max_gap_single. Qed.
+
+Lemma ring_area_wd a b : shoelace2 a == shoelace2 b -> ring_area a == ring_area b.
+Proof. intros H. unfold ring_area. rewrite H. reflexivity. Qed.
+
+Lemma qsum_app a b : qsum (a ++ b) == qsum a + qsum b.
+Proof. induction a; simpl; [ring|]. rewrite IHa. ring. Qed.
+
+Section SegmentedAny.
+  Variable sq : Q -> option Q.
+  Hypothesis Hsq : sqrt_spec sq.
+  Variable r : Q.
+
+  Definition seg_post (g g' : geom) : Prop :=
+    kind_skeleton g' = kind_skeleton g /\
+    Forall2 refines (paths g) (paths g') /\
+    Forall (max_gap r) (paths g') /\
+    geom_area g' == geom_area g.
+
+  Lemma holes_post hs hs' :
+    Forall2 (fun a b => densify_gen repaired sq a r = Ok b) hs hs' ->
+    map (fun _ : list pt => O) hs' = map (fun _ : list pt => O) hs /\
+    Forall2 refines hs hs' /\ Forall (max_gap r) hs' /\
+    qsum (map ring_area hs') == qsum (map ring_area hs).
+  Proof.
+    induction 1 as [|a b hs hs' Hab _ IH]; simpl.
+    - repeat split; constructor.
+    - destruct IH as (I1 & I2 & I3 & I4).
+      destruct (densify_spec sq Hsq _ _ _ Hab) as (_ & Href & Hgap).
+      repeat split; try constructor; auto.
+      + f_equal; exact I1.
+      + rewrite I4. rewrite (ring_area_wd _ _ (refines_shoelace _ _ Href)). reflexivity.
+  Qed.
+
+  Lemma parts_post ps ps' :
+    Forall2 seg_post ps ps' ->
+    map kind_skeleton ps' = map kind_skeleton ps /\
+    Forall2 refines (concat (map paths ps)) (concat (map paths ps')) /\
+    Forall (max_gap r) (concat (map paths ps')) /\
+    qsum (map geom_area ps') == qsum (map geom_area ps).
+  Proof.
+    induction 1 as [|a b ps ps' (H1 & H2 & H3 & H4) _ IH]; simpl.
+    - repeat split; constructor.
+    - destruct IH as (I1 & I2 & I3 & I4).
+      repeat split.
+      + f_equal; assumption.
+      + apply Forall2_app; assumption.
+      + apply Forall_app; split; assumption.
+      + rewrite H4, I4. reflexivity.
+  Qed.
+
+  Theorem segmented_spec : forall g g',
+    segmented_gen repaired sq r g = Ok g' -> seg_post g g'.
+  Proof.
+    induction g as [p|ps|cs|cs|e hs|k ps IH] using geom_ind'; intros g' H; cbn [segmented_gen] in H.
+    - inversion H; subst. unfold seg_post; simpl. repeat split; try reflexivity.
+      + repeat constructor.
+      + constructor; [apply max_gap_single | constructor].
+    - inversion H; subst. unfold seg_post; simpl. repeat split; try reflexivity.
+      + apply Forall2_refines_singles.
+      + apply Forall_max_gap_singles.
+    - apply bind_ok in H. destruct H as (c & Hc & H). inversion H; subst.
+      destruct (densify_spec sq Hsq _ _ _ Hc) as (_ & Href & Hgap).
+      unfold seg_post; simpl. repeat split; try reflexivity; repeat constructor; auto.
+    - apply bind_ok in H. destruct H as (c & Hc & H). inversion H; subst.
+      destruct (densify_spec sq Hsq _ _ _ Hc) as (_ & Href & Hgap).
+      unfold seg_post; simpl. repeat split; try reflexivity; repeat constructor; auto.
+    - apply bind_ok in H. destruct H as (e' & He & H).
+      apply bind_ok in H. destruct H as (hs' & Hh & H). inversion H; subst.
+      destruct (densify_spec sq Hsq _ _ _ He) as (_ & Href & Hgap).
+      destruct (holes_post _ _ (mapM_Forall2 _ _ _ Hh)) as (I1 & I2 & I3 & I4).
+      unfold seg_post; simpl. repeat split.
+      + f_equal; exact I1.
+      + constructor; assumption.
+      + constructor; assumption.
+      + rewrite I4. rewrite (ring_area_wd _ _ (refines_shoelace _ _ Href)). reflexivity.
+    - apply bind_ok in H. destruct H as (ps' & Hp & H). inversion H; subst.
+      assert (HF : Forall2 seg_post ps ps').
+      { pose proof (mapM_Forall2 _ _ _ Hp) as HF. clear Hp H.
+        induction HF as [|a b ps ps' Hab _ IHF]; constructor.
+        - inversion IH; subst. auto.
+        - apply IHF. inversion IH; subst; assumption. }
+      destruct (parts_post _ _ HF) as (I1 & I2 & I3 & I4).
+      unfold seg_post; simpl. repeat split; auto. f_equal; exact I1.
+  Qed.
+
+  (** segmented fails only where densify fails: ValueError for a non-positive
+      resolution, otherwise only outside the rational-length domain of [sq] *)
+  Lemma densify_err_kind cs e :
+    densify_gen repaired sq cs r = Err e -> (e = EValue /\ r <= 0) \/ (e = EOther /\ 0 < r).
+  Proof.
+    intros H. destruct (densify_errors sq Hsq _ _ _ H) as [?|(? & ? & _)]; auto.
+  Qed.
+
+  Theorem segmented_errors : forall g e,
+    segmented_gen repaired sq r g = Err e -> (e = EValue /\ r <= 0) \/ (e = EOther /\ 0 < r).
+  Proof.
+    induction g as [p|ps|cs|cs|e0 hs|k ps IH] using geom_ind'; intros e H; cbn [segmented_gen] in H;
+      try discriminate.
+    - destruct (densify_gen repaired sq cs r) eqn:E; simpl in H; [discriminate|].
+      inversion H; subst. eapply densify_err_kind; eauto.
+    - destruct (densify_gen repaired sq cs r) eqn:E; simpl in H; [discriminate|].
+      inversion H; subst. eapply densify_err_kind; eauto.
+    - destruct (densify_gen repaired sq e0 r) eqn:E; simpl in H.
+      + destruct (mapM (fun h => densify_gen repaired sq h r) hs) eqn:Eh; simpl in H; [discriminate|].
+        inversion H; subst. destruct (mapM_err _ _ _ Eh) as (x & _ & Hx).
+        eapply densify_err_kind; eauto.
+      + inversion H; subst. eapply densify_err_kind; eauto.
+    - destruct (mapM (segmented_gen repaired sq r) ps) as [ps'|e1] eqn:Em; simpl in H; [discriminate|].
+      inversion H; subst e1; clear H.
+      destruct (mapM_err _ _ _ Em) as (x & Hin & Hx).
+      rewrite Forall_forall in IH. eapply IH; eauto.
+  Qed.
+End SegmentedAny.
+
+(* ------------------------------------------------------------------ totality of segmented *)
+Lemma mapM_total {A B} (f : A -> res B) l :
+  Forall (fun x => exists y, f x = Ok y) l -> exists l', mapM f l = Ok l'.
+Proof.
+  induction 1 as [|x l (y & Hy) _ (l' & Hl)]; simpl; [eauto|].
+  rewrite Hy, Hl. simpl. eauto.
+Qed.
+
+Theorem segmented_total sq : sqrt_spec sq -> forall r, 0 < r -> forall g,
+  Forall (roots_exist sq) (paths g) -> exists g', segmented_gen repaired sq r g = Ok g'.
+Proof.
+  intros Hsq r Hr.
+  induction g as [p|ps|cs|cs|e hs|k ps IH] using geom_ind'; intros H; cbn [segmented_gen]; eauto.
+  - simpl in H. inversion H; subst.
+    destruct (densify_total sq Hsq cs r Hr) as [c Hc]; auto. rewrite Hc. simpl. eauto.
+  - simpl in H. inversion H; subst.
+    destruct (densify_total sq Hsq cs r Hr) as [c Hc]; auto. rewrite Hc. simpl. eauto.
+  - simpl in H. inversion H as [|? ? He Hh]; subst.
+    destruct (densify_total sq Hsq e r Hr He) as [c Hc]. rewrite Hc. simpl.
+    destruct (mapM_total (fun h => densify_gen repaired sq h r) hs) as [hs' Hhs].
+    { revert Hh. apply Forall_impl. intros a Ha. apply densify_total; auto. }
+    rewrite Hhs. simpl. eauto.
+  - simpl in H.
+    destruct (mapM_total (segmented_gen repaired sq r) ps) as [ps' Hps].
+    { clear -IH H. induction IH as [|x l Hx _ IHl]; constructor.
+      - apply Hx. simpl in H. apply Forall_app in H. tauto.
+      - apply IHl. simpl in H. apply Forall_app in H. tauto. }
+    rewrite Hps. simpl. eauto.
+Qed.
+
+(* ------------------------------------------------------------------ ops.transform as a map *)
+Lemma gmap_skeleton f : forall g, skeleton (gmap f g) = skeleton g.
+Proof.
+  induction g as [p|ps|cs|cs|e hs|k ps IH] using geom_ind'; simpl; try reflexivity;
+    try (rewrite map_length; reflexivity).
+  - rewrite map_length. f_equal. rewrite map_map. apply map_ext. intros; apply map_length.
+  - f_equal. rewrite map_map. apply map_ext_Forall. exact IH.
+Qed.
+
+Lemma gmap_vertices f : forall g, vertices (gmap f g) = map f (vertices g).
+Proof.
+  induction g as [p|ps|cs|cs|e hs|k ps IH] using geom_ind'; simpl; try reflexivity.
+  - rewrite map_app. f_equal. rewrite concat_map. reflexivity.
+  - rewrite concat_map. f_equal. rewrite !map_map. apply map_ext_Forall. exact IH.
+Qed.
+
+Lemma gmap_paths f : forall g, paths (gmap f g) = map (map f) (paths g).
+Proof.
+  induction g as [p|ps|cs|cs|e hs|k ps IH] using geom_ind'; simpl; try reflexivity.
+  - rewrite !map_map. reflexivity.
+  - rewrite concat_map. f_equal. rewrite !map_map. apply map_ext_Forall. exact IH.
+Qed.
+
+Lemma gmap_id : forall g, gmap (fun p => p) g = g.
+Proof.
+  induction g as [p|ps|cs|cs|e hs|k ps IH] using geom_ind'; simpl; try reflexivity;
+    try (rewrite map_id; reflexivity).
+  - rewrite map_id. f_equal. rewrite <- (map_id hs) at 2. apply map_ext. intros; apply map_id.
+  - f_equal. rewrite <- (map_id ps) at 2. apply map_ext_Forall. exact IH.
+Qed.
+
+(* ------------------------------------------------------------------ to_crs *)
+Section ToCrsProofs.
+  Variable crs : Type.
+  Variable crs_eqb : crs -> crs -> bool.
+  Variable geographic : crs -> bool.
+  Variable proj : crs -> crs -> pt -> pt.
+  Variable is_valid : geom -> bool.
+  Variable repair chop_antimeridian clip_lon180 : geom -> geom.
+  Variable sq : Q -> option Q.
+
+  Let to_crs := to_crs_gen crs crs_eqb geographic proj is_valid repair chop_antimeridian clip_lon180
+                           repaired sq.
+
+  Theorem to_crs_none_target self g rs w cf : to_crs self g None rs w cf = Err EValue.
+  Proof. reflexivity. Qed.
+
+  Theorem to_crs_same s c g rs w cf :
+    crs_eqb s c = true -> to_crs (Some s) g (Some c) rs w cf = Ok Same.
+  Proof. intros H. unfold to_crs, to_crs_gen. rewrite H. reflexivity. Qed.
+
+  Theorem to_crs_no_crs c g rs w cf : to_crs None g (Some c) rs w cf = Err EValue.
+  Proof. reflexivity. Qed.
+
+  (** the flags at their defaults, or without effect *)
+  Definition plain (w cf : bool) (c : crs) (projected : geom) : Prop :=
+    w && geographic c = false /\ (negb cf || is_valid projected = true).
+
+  Theorem to_crs_undensified s c g rs w cf :
+    crs_eqb s c = false -> rs = RNone \/ rs = RNonFinite ->
+    plain w cf c (gmap (proj s c) g) ->
+    to_crs (Some s) g (Some c) rs w cf = Ok (Fresh (gmap (proj s c) g) c).
+  Proof.
+    intros H Hrs [Hw Hv]. unfold to_crs, to_crs_gen. rewrite H.
+    destruct Hrs; subst rs; simpl; rewrite Hw, Hv; reflexivity.
+  Qed.
+
+  Theorem to_crs_nonpositive s c g r w cf :
+    crs_eqb s c = false -> r <= 0 ->
+    plain w cf c (gmap (proj s c) g) ->
+    to_crs (Some s) g (Some c) (RNum r) w cf = Ok (Fresh (gmap (proj s c) g) c).
+  Proof.
+    intros H Hr [Hw Hv]. unfold to_crs, to_crs_gen. rewrite H. simpl.
+    assert (E : Qltb 0 r = false) by (apply Qltb_false; exact Hr). rewrite E. simpl.
+    rewrite Hw, Hv; reflexivity.
+  Qed.
+
+  Theorem to_crs_densified s c g r g1 w cf :
+    crs_eqb s c = false -> 0 < r ->
+    segmented_gen repaired sq r g = Ok g1 ->
+    plain w cf c (gmap (proj s c) g1) ->
+    to_crs (Some s) g (Some c) (RNum r) w cf = Ok (Fresh (gmap (proj s c) g1) c).
+  Proof.
+    intros H Hr Hg [Hw Hv]. unfold to_crs, to_crs_gen. rewrite H. simpl.
+    assert (E : Qltb 0 r = true) by (apply Qltb_true; exact Hr). rewrite E, Hg. simpl.
+    rewrite Hw, Hv; reflexivity.
+  Qed.
+
+  Theorem to_crs_auto s c g a w cf :
+    crs_eqb s c = false -> auto_resolution sq g = Ok a ->
+    to_crs (Some s) g (Some c) RAuto w cf = to_crs (Some s) g (Some c) (RNum a) w cf.
+  Proof.
+    intros H Ha. unfold to_crs, to_crs_gen. rewrite H. simpl. rewrite Ha. reflexivity.
+  Qed.
+
+  (** whatever the resolution: with default flags a successful conversion is the
+      point-wise image of the geometry itself or of its densification *)
+  Theorem to_crs_faithful self g target rs g' c' :
+    to_crs self g target rs false false = Ok (Fresh g' c') ->
+    exists s, self = Some s /\ target = Some c' /\ crs_eqb s c' = false /\
+      exists g1, g' = gmap (proj s c') g1 /\
+                 (g1 = g \/ exists r, 0 < r /\ segmented_gen repaired sq r g = Ok g1).
+  Proof.
+    unfold to_crs, to_crs_gen. destruct target as [c|]; [|discriminate].
+    destruct self as [s|]; [|discriminate].
+    destruct (crs_eqb s c) eqn:E; [discriminate|].
+    intros H. apply bind_ok in H. destruct H as (rs' & Hrs & H).
+    apply bind_ok in H. destruct H as (g1 & Hg1 & H). simpl in H. inversion H; subst g' c'; clear H.
+    exists s. repeat split; auto. exists g1. split; [reflexivity|].
+    destruct rs' as [| |r|]; try (inversion Hg1; subst; left; reflexivity).
+    cbn [fx_autopos repaired negb orb] in Hg1.
+    destruct (Qltb 0 r) eqn:Er.
+    - right. exists r. split; [apply Qltb_true; exact Er | exact Hg1].
+    - inversion Hg1; subst; left; reflexivity.
+  Qed.
+
+  (** [self] is returned only for equal CRSs *)
+  Theorem to_crs_same_only self g target rs w cf :
+    to_crs self g target rs w cf = Ok Same ->
+    exists s c, self = Some s /\ target = Some c /\ crs_eqb s c = true.
+  Proof.
+    unfold to_crs, to_crs_gen. destruct target as [c|]; [|discriminate].
+    destruct self as [s|]; [|discriminate].
+    destruct (crs_eqb s c) eqn:E; [eauto|].
+    intros H. apply bind_ok in H. destruct H as (rs' & Hrs & H).
+    apply bind_ok in H. destruct H as (g1 & Hg1 & H).
+    destruct (w && geographic c); discriminate.
+  Qed.
+End ToCrsProofs.
+
+(** before f270811: "auto" on a zero-area geometry reaches densify with resolution 0,
+    whose loop never finishes *)
+Lemma unrepaired_auto_zero_area crs crs_eqb geographic proj is_valid repair chop clip (s c : crs) w cf :
+  crs_eqb s c = false ->
+  to_crs_gen crs crs_eqb geographic proj is_valid repair chop clip
+             (Build_fixes true false true false) exact_sqrt
+             (Some s) (Line [(0, 0); (3, 4)]) (Some c) RAuto w cf = Err ERuntime.
+Proof.
+  intros H. unfold to_crs_gen. rewrite H. vm_compute. reflexivity.
+Qed.
